@@ -69,17 +69,15 @@ def run(ctx):
     g = ctx.cfg(fe)
     F = ctx.facts(fe)
     for rn in g.returns:
-        rk = F.keys.key(kids(rn.ast)[0])
-        fs = F.facts_at(rn)
-        neq = [f_ for f_ in fs if f_[0] == '!=' and '.' in f_[1] and '.' in f_[2] and f_[1].split('.')[-1] == f_[2].split('.')[-1]]
-        eqidx = [f_ for f_ in fs if f_[0] == '==' and 'index' in f_[1] and 'index' in f_[2]]
-        if neq:
-            ctx.check(rk == 'n:0', 'C11-equiv', 'differing %s => not equivalent' % neq[0][1].split('.')[-1], rn.ast,
-                      'EquivTransitions returns true although a compared attribute differs', construct='equiv-ret:%s' % neq[0][1].split('.')[-1])
-        else:
-            ctx.check(rk == 'n:1', 'C11-equiv', 'no differing attribute => equivalent', rn.ast,
-                      'EquivTransitions returns false although no compared attribute differs: every transition is '
-                      'reported, including no-ops', construct='equiv-ret:true')
+        for (fs, val) in F.return_cases(rn):
+            neq = [f_ for f_ in fs if f_[0] == '!=' and '.' in f_[1] and '.' in f_[2] and f_[1].split('.')[-1] == f_[2].split('.')[-1]]
+            if neq:
+                ctx.check(val is False, 'C11-equiv', 'differing %s => not equivalent' % neq[0][1].split('.')[-1], rn.ast,
+                          'EquivTransitions returns true although a compared attribute differs', construct='equiv-ret:%s' % neq[0][1].split('.')[-1])
+            else:
+                ctx.check(val is True, 'C11-equiv', 'no differing attribute => equivalent', rn.ast,
+                          'EquivTransitions returns false although no compared attribute differs: every transition is '
+                          'reported, including no-ops', construct='equiv-ret:true')
 
     # ---- C11-sib / C11-bound
     res = {}
